@@ -648,8 +648,26 @@ func (c *Check) ruleReadIsFresh(rule string, a *repoAnchors) {
 			if !rewrites {
 				continue
 			}
-			c.Decide(len(storesToField(m, f)) > 0, rule, c.P.Key(m)+"#invalidates-"+f.Name(), m.Pos(), "who-must-write", nil,
-				"the cached field is rewritten where block files are removed / rewritten", "read() can answer from the field "+f.Name()+" but "+c.P.Key(m)+" removes / rewrites block files without touching it: after a revert the by-height queries answer from the abandoned branch")
+			stores := storesToField(m, f)
+			okInv := len(stores) > 0
+			var wInv []string
+			if okInv {
+				// on every successful path, not only under a condition
+				var evs []ssa.Instruction
+				for _, st := range stores {
+					evs = append(evs, st)
+				}
+				for _, ret := range returnsOf(m) {
+					if isErrorReturnBlock(ret.Block()) || (m.Recover != nil && ret.Block() == m.Recover) {
+						continue
+					}
+					if ok2, w2 := alwaysPrecededBy(ret, evs); !ok2 {
+						okInv, wInv = false, w2
+					}
+				}
+			}
+			c.Decide(okInv, rule, c.P.Key(m)+"#invalidates-"+f.Name(), m.Pos(), "who-must-write", wInv,
+				"the cached field is rewritten where block files are removed / rewritten", "read() can answer from the field "+f.Name()+" but "+c.P.Key(m)+" removes / rewrites block files without touching it on every successful path: after a revert the by-height queries answer from the abandoned branch")
 		}
 	}
 }
@@ -1296,7 +1314,17 @@ func (c *Check) ruleQueuedOnlyOnSend(rule string, fChan *types.Var) {
 		}
 		isNil, known := errIsNilReturn(ret)
 		if known && !isNil {
-			continue
+			// "not the nil constant" is not enough here: the value must be known non-nil (a sentinel, a
+			// fresh error, a wrap of one); `errors.Wrap(ctx.Err(), …)` is nil whenever ctx.Err() is
+			nonNil := true
+			for _, v := range resultValues(ret, len(ret.Results)-1) {
+				if !knownNonNil(v, ret.Block(), 0) {
+					nonNil = false
+				}
+			}
+			if nonNil {
+				continue
+			}
 		}
 		n++
 		ok, w := mustPass(ret, sent)
